@@ -226,25 +226,44 @@ Proof.
 Qed.
 
 (* what a whole parse may do to registry, constants, recorded imports and lock *)
+(* (the recorded imports only grow, at the end: every import statement that takes effect is recorded at once) *)
 Definition frame_gen (env : fenv) (s s' : tstate) : Prop :=
-  reg_extends env s s' /\ t_consts s' = t_consts s /\ t_imports s' = t_imports s /\ t_locked s' = t_locked s.
+  reg_extends env s s' /\ t_consts s' = t_consts s /\ (exists d, t_imports s' = t_imports s ++ d) /\ t_locked s' = t_locked s.
 Lemma frame_gen_refl : forall env s, frame_gen env s s.
-Proof. intros env s. split; [apply reg_extends_refl|]. repeat split; reflexivity. Qed.
+Proof.
+  intros env s. split; [apply reg_extends_refl|]. split; [reflexivity|]. split; [|reflexivity].
+  exists []. rewrite app_nil_r. reflexivity.
+Qed.
 Lemma frame_gen_trans : forall env a b c, frame_gen env a b -> frame_gen env b c -> frame_gen env a c.
 Proof.
-  intros env a b c [A1 [A2 [A3 A4]]] [B1 [B2 [B3 B4]]]. split; [eapply reg_extends_trans; eassumption|].
-  repeat split; congruence.
+  intros env a b c [A1 [A2 [[d1 A3] A4]]] [B1 [B2 [[d2 B3] B4]]]. split; [eapply reg_extends_trans; eassumption|].
+  split; [congruence|]. split; [|congruence]. exists (d1 ++ d2). rewrite B3, A3, app_assoc. reflexivity.
 Qed.
 Lemma frame_gen_pure : forall env s s', pure_imports env -> frame_gen env s s' ->
-  t_reg s' = t_reg s /\ t_consts s' = t_consts s /\ t_imports s' = t_imports s /\ t_locked s' = t_locked s.
+  t_reg s' = t_reg s /\ t_consts s' = t_consts s /\ (exists d, t_imports s' = t_imports s ++ d) /\ t_locked s' = t_locked s.
 Proof. intros env s s' Hp [A [B [C D]]]. split; [apply (reg_extends_pure env s s' Hp A)|]. auto. Qed.
+Lemma frame_gen_same_imports : forall env s s',
+  reg_extends env s s' -> t_consts s' = t_consts s -> t_imports s' = t_imports s -> t_locked s' = t_locked s ->
+  frame_gen env s s'.
+Proof.
+  intros env s s' A B C D. split; [exact A|]. split; [exact B|]. split; [|exact D].
+  exists []. rewrite app_nil_r. exact C.
+Qed.
+Lemma frame_gen_add_imports : forall env l s, frame_gen env s (add_imports l s).
+Proof.
+  intros env l s. split; [apply reg_extends_eq; reflexivity|]. split; [reflexivity|]. split; [|reflexivity].
+  exists l. reflexivity.
+Qed.
 Lemma bind_frame_gen : forall env s sc sel arg v l s', bind s sc sel arg v l = SOk s' -> frame_gen env s s'.
 Proof.
   intros env s sc sel arg v l s' H. destruct (bind_ok_frame _ _ _ _ _ _ _ H) as [A [B [C D]]].
-  split; [apply reg_extends_eq; exact A|]. auto.
+  apply frame_gen_same_imports; auto. apply reg_extends_eq; exact A.
 Qed.
 Lemma register_mod_frame_gen : forall env m s s', register_mod env m s = SOk s' -> frame_gen env s s'.
-Proof. intros env m s s' H. destruct (register_mod_ok_frame _ _ _ _ H) as [A [B [_ [_ [C D]]]]]. split; auto. Qed.
+Proof.
+  intros env m s s' H. destruct (register_mod_ok_frame _ _ _ _ H) as [A [B [_ [_ [C D]]]]].
+  apply frame_gen_same_imports; auto.
+Qed.
 
 (* ---------- apply_stmts: sequencing ---------- *)
 Lemma apply_stmts_cons : forall env sk fname inc st rest s im ic,
@@ -306,8 +325,8 @@ Proof.
     + cbn in Hst. discriminate.
 Qed.
 
-(* without includes apply_stmts never touches constants / lock / recorded imports, and the registry only grows by
-   what the imported modules register *)
+(* without includes apply_stmts never touches constants / lock, the recorded imports only grow, and the registry only
+   grows by what the imported modules register *)
 Theorem apply_stmts_frame_gen : forall env sk fname inc stmts s im ic s' r,
   forallb (fun st => negb (is_include st)) stmts = true ->
   apply_stmts env sk fname inc stmts s im ic = (s', r) -> frame_gen env s s'.
@@ -330,7 +349,8 @@ Proof.
       eapply IH; eassumption.
     + destruct (str_in m (e_modules env)).
       * destruct (register_mod env m s) as [s0|e] eqn:Hreg.
-        -- eapply frame_gen_trans; [eapply register_mod_frame_gen; exact Hreg|eapply IH; eassumption].
+        -- eapply frame_gen_trans; [eapply register_mod_frame_gen; exact Hreg|].
+           eapply frame_gen_trans; [apply (frame_gen_add_imports env [m] s0)|eapply IH; eassumption].
         -- inversion H. apply frame_gen_refl.
       * destruct (sk_truthy sk); [eapply IH; eassumption|].
         inversion H. apply frame_gen_refl.
@@ -342,7 +362,7 @@ Theorem apply_stmts_frame : forall env sk fname inc stmts s im ic s' r,
   pure_imports env ->
   forallb (fun st => negb (is_include st)) stmts = true ->
   apply_stmts env sk fname inc stmts s im ic = (s', r) ->
-  t_reg s' = t_reg s /\ t_consts s' = t_consts s /\ t_imports s' = t_imports s /\ t_locked s' = t_locked s.
+  t_reg s' = t_reg s /\ t_consts s' = t_consts s /\ (exists d, t_imports s' = t_imports s ++ d) /\ t_locked s' = t_locked s.
 Proof.
   intros env sk fname inc stmts s im ic s' r Hp Hn H. apply (frame_gen_pure env s s' Hp).
   eapply apply_stmts_frame_gen; eassumption.
@@ -483,7 +503,7 @@ Qed.
 Lemma consume_frame : forall env sk fname inc gs s im ic s' r,
   pure_imports env -> no_includes gs ->
   consume env sk fname inc gs s im ic = (s', r) ->
-  t_reg s' = t_reg s /\ t_consts s' = t_consts s /\ t_imports s' = t_imports s /\ t_locked s' = t_locked s.
+  t_reg s' = t_reg s /\ t_consts s' = t_consts s /\ (exists d, t_imports s' = t_imports s ++ d) /\ t_locked s' = t_locked s.
 Proof.
   intros env sk fname inc gs s im ic s' r Hp Hn H. apply (frame_gen_pure env s s' Hp).
   eapply consume_frame_gen; eassumption.
@@ -563,7 +583,7 @@ Lemma parse_tokens_S : forall f env sk fname o pending ts s im ic,
   parse_tokens (S f) env sk fname o pending ts s im ic =
   match parse_statement o pending ts with
   | PErr e => (s, SErr (perr_to_serr fname e))
-  | POk None => (add_imports im s, SOk (im, ic))
+  | POk None => (s, SOk (im, ic))
   | POk (Some (stmts, ts', pending')) =>
       match resolve_group s sk fname stmts with
       | SErr e => (s, SErr e)
@@ -620,7 +640,7 @@ Theorem C16_stream_eq_gen : forall fuel env sk fname o pending ts s im ic gs pe,
        if Nat.eqb (List.length gs) fuel then (s1, SErr (SEOther "RecursionError" []))
        else match pe with
             | Some e => (s1, SErr (perr_to_serr fname e))
-            | None => (add_imports im' s1, SOk (im', ic'))
+            | None => (s1, SOk (im', ic'))
             end
    end).
 Proof.
@@ -655,7 +675,7 @@ Theorem C16_stream_eq : forall fuel env sk fname o pending ts s im ic gs pe,
    | SOk (im', ic') =>
        match pe with
        | Some e => (s1, SErr (perr_to_serr fname e))
-       | None => (add_imports im' s1, SOk (im', ic'))
+       | None => (s1, SOk (im', ic'))
        end
    end).
 Proof.
@@ -675,7 +695,7 @@ Corollary C16_stream_eq' : forall fuel env sk fname o pending ts s im ic gs pe,
    | SOk (im', ic') =>
        match pe with
        | Some e => (s1, SErr (perr_to_serr fname e))
-       | None => (add_imports im' s1, SOk (im', ic'))
+       | None => (s1, SOk (im', ic'))
        end
    end).
 Proof.
@@ -694,23 +714,165 @@ Example C16_stream_eq_needs_fuel :
   perr_to_serr "" (EOther "OutOfFuel") = SEOther "OutOfFuel" [].
 Proof. cbn [parse_groups parse_tokens snd perr_to_serr]. repeat split; reflexivity. Qed.
 
-(* an error never records imports, never locks/unlocks, never touches constants; the registry only grows by the
-   registrations of the modules imported before the failure (no fuel side condition needed) *)
+(* ---------- the recorded imports ---------- *)
+(* imports a file's own statements record: the importable modules, in order *)
+Definition stmt_imports (env : fenv) (st : stmt) : list string :=
+  match st with SImport m _ _ _ => if str_in m (e_modules env) then [m] else [] | _ => [] end.
+Definition imports_of (env : fenv) (gs : list (list stmt)) : list string := flat_map (flat_map (stmt_imports env)) gs.
+
+Lemma imports_of_app : forall env a b, imports_of env (a ++ b) = imports_of env a ++ imports_of env b.
+Proof. intros env a b. unfold imports_of. apply flat_map_app. Qed.
+
+(* resolving the references of a group changes no import statement *)
+Lemma resolve_group_map_imports : forall env s sk fname g g',
+  resolve_group s sk fname g = SOk g' -> map (stmt_imports env) g' = map (stmt_imports env) g.
+Proof.
+  intros env s sk fname g. induction g as [|st rest IH]; intros g' H.
+  - rewrite resolve_group_nil in H. inversion H. reflexivity.
+  - destruct st as [sc sel arg v line|sc sel line|m isf al line|v line].
+    + rewrite resolve_group_SBind in H.
+      destruct (resolve_value 100 s sk v) as [v'|e]; [|rewrite with_loc_SErr in H; discriminate].
+      destruct (resolve_group s sk fname rest) as [r'|e]; [|discriminate].
+      inversion H. cbn [map stmt_imports]. rewrite (IH r' eq_refl). reflexivity.
+    + rewrite resolve_group_other in H by (intros; discriminate).
+      destruct (resolve_group s sk fname rest) as [r'|e]; [|discriminate].
+      inversion H. cbn [map]. rewrite (IH r' eq_refl). reflexivity.
+    + rewrite resolve_group_other in H by (intros; discriminate).
+      destruct (resolve_group s sk fname rest) as [r'|e]; [|discriminate].
+      inversion H. cbn [map]. rewrite (IH r' eq_refl). reflexivity.
+    + rewrite resolve_group_other in H by (intros; discriminate).
+      destruct (resolve_group s sk fname rest) as [r'|e]; [|discriminate].
+      inversion H. cbn [map]. rewrite (IH r' eq_refl). reflexivity.
+Qed.
+Lemma resolve_group_imports_firstn : forall env s sk fname g g' k,
+  resolve_group s sk fname g = SOk g' ->
+  flat_map (stmt_imports env) (firstn k g') = flat_map (stmt_imports env) (firstn k g).
+Proof.
+  intros env s sk fname g g' k H. rewrite !flat_map_concat_map, <- !firstn_map.
+  rewrite (resolve_group_map_imports env _ _ _ _ _ H). reflexivity.
+Qed.
+Lemma resolve_group_imports : forall env s sk fname g g',
+  resolve_group s sk fname g = SOk g' -> flat_map (stmt_imports env) g' = flat_map (stmt_imports env) g.
+Proof.
+  intros env s sk fname g g' H. rewrite !flat_map_concat_map.
+  rewrite (resolve_group_map_imports env _ _ _ _ _ H). reflexivity.
+Qed.
+
+(* a statement list that has been applied has RECORDED, import by import and in order, exactly what it returns: the
+   importable modules of its import statements *)
+Theorem apply_stmts_noinc_records : forall env sk fname inc stmts s im ic s1 im1 ic1,
+  forallb (fun st => negb (is_include st)) stmts = true ->
+  apply_stmts env sk fname inc stmts s im ic = (s1, SOk (im1, ic1)) ->
+  im1 = im ++ flat_map (stmt_imports env) stmts /\ t_imports s1 = t_imports s ++ flat_map (stmt_imports env) stmts.
+Proof.
+  intros env sk fname inc stmts. induction stmts as [|st rest IH]; intros s im ic s1 im1 ic1 Hn H.
+  - cbn [apply_stmts] in H. inversion H. cbn [flat_map]. rewrite !app_nil_r. auto.
+  - cbn [forallb] in Hn. apply andb_true_iff in Hn. destruct Hn as [Hst Hrest].
+    assert (Hb : forall sc sel arg v l,
+      match bind s sc sel arg v l with
+      | SErr e => (s, with_loc l (SErr e))
+      | SOk s' => apply_stmts env sk fname inc rest s' im ic
+      end = (s1, SOk (im1, ic1)) ->
+      im1 = im ++ flat_map (stmt_imports env) rest /\ t_imports s1 = t_imports s ++ flat_map (stmt_imports env) rest).
+    { intros sc sel arg v l Hm.
+      destruct (bind s sc sel arg v l) as [s0|e] eqn:Hbind; [|rewrite with_loc_SErr in Hm; discriminate].
+      destruct (bind_ok_frame _ _ _ _ _ _ _ Hbind) as [_ [_ [C _]]]. rewrite <- C. eapply IH; eassumption. }
+    destruct st as [sc sel arg v line|sc sel line|m isf al line|v line]; cbn [apply_stmts] in H;
+      cbn [flat_map stmt_imports app].
+    + destruct (String.eqb arg ""); [eapply Hb; exact H|].
+      destruct (should_skip s sel sk); [eapply IH; eassumption|eapply Hb; exact H].
+    + destruct (should_skip s sel sk); [eapply IH; eassumption|].
+      destruct (sm_get_match (to_key sel) (t_reg s)) as [| |k [c|]]; try discriminate. eapply IH; eassumption.
+    + destruct (str_in m (e_modules env)).
+      * destruct (register_mod env m s) as [s0|e] eqn:Hreg; [|rewrite with_loc_SErr in H; discriminate].
+        destruct (register_mod_ok_frame _ _ _ _ Hreg) as [_ [_ [_ [_ [C _]]]]].
+        destruct (IH _ _ _ _ _ _ Hrest H) as [A B]. unfold add_imports in B. cbn [t_imports] in B.
+        rewrite C in B. rewrite <- app_assoc in A, B. auto.
+      * destruct (sk_truthy sk); [|discriminate]. cbn [app]. eapply IH; eassumption.
+    + cbn in Hst. discriminate.
+Qed.
+
+Lemma no_includes_firstn : forall i gs, no_includes gs -> no_includes (firstn i gs).
+Proof.
+  intros i gs H. unfold no_includes in *. rewrite <- (firstn_skipn i gs) in H. apply Forall_app in H. exact (proj1 H).
+Qed.
+Lemma noinc_firstn : forall k (g : list stmt),
+  forallb (fun st => negb (is_include st)) g = true -> forallb (fun st => negb (is_include st)) (firstn k g) = true.
+Proof.
+  intros k g H. rewrite <- (firstn_skipn k g), forallb_app in H. apply andb_true_iff in H. exact (proj1 H).
+Qed.
+
+(* the same for any number of groups *)
+Theorem consume_noinc_records : forall env sk fname inc gs s im ic s1 im1 ic1,
+  no_includes gs -> consume env sk fname inc gs s im ic = (s1, SOk (im1, ic1)) ->
+  im1 = im ++ imports_of env gs /\ t_imports s1 = t_imports s ++ imports_of env gs.
+Proof.
+  intros env sk fname inc gs. induction gs as [|g rest IH]; intros s im ic s1 im1 ic1 Hn H.
+  - cbn [consume] in H. inversion H. unfold imports_of. cbn [flat_map]. rewrite !app_nil_r. auto.
+  - inversion Hn as [|g0 rest0 Hg Hrest]; subst g0 rest0. cbn [consume] in H.
+    destruct (resolve_group s sk fname g) as [g'|e0] eqn:Hr; [|discriminate].
+    destruct (apply_stmts env sk fname inc g' s im ic) as [s2 r2] eqn:Ha.
+    destruct r2 as [[im2 ic2]|e2]; [|discriminate].
+    assert (Hg' : forallb (fun st => negb (is_include st)) g' = true)
+      by (rewrite (resolve_group_noinc _ _ _ _ _ Hr); exact Hg).
+    destruct (apply_stmts_noinc_records _ _ _ _ _ _ _ _ _ _ _ Hg' Ha) as [B1 B2].
+    destruct (IH _ _ _ _ _ _ Hrest H) as [C1 C2].
+    rewrite (resolve_group_imports env _ _ _ _ _ Hr) in B1, B2.
+    unfold imports_of. cbn [flat_map]. fold (imports_of env rest).
+    rewrite C1, C2, B1, B2, <- !app_assoc. auto.
+Qed.
+
+(* what a FAILED parse of the groups gs has recorded: exactly the imports of the statements that took effect before
+   the failure, in order.  Either every group was applied (the text then ended in a parse error, or the recursion
+   budget ran out), or group i failed -- while its references were resolved: nothing of it was applied; or at its
+   statement k: the statements before k were. *)
+Definition failed_parse_imports (env : fenv) (sk : skip_unknown) (fname : string) (gs : list (list stmt))
+           (s : tstate) (im : list string) (ic : list itree) (s' : tstate) (e : serr) : Prop :=
+  (exists im' ic', consume env sk fname no_inc gs s im ic = (s', SOk (im', ic')) /\
+     t_imports s' = t_imports s ++ imports_of env gs) \/
+  (exists i g, nth_error gs i = Some g /\
+     exists s0 im0 ic0, consume env sk fname no_inc (firstn i gs) s im ic = (s0, SOk (im0, ic0)) /\
+       ((resolve_group s0 sk fname g = SErr e /\ s' = s0 /\
+         t_imports s' = t_imports s ++ imports_of env (firstn i gs)) \/
+        (exists g' k st im' ic', resolve_group s0 sk fname g = SOk g' /\ nth_error g' k = Some st /\
+           apply_stmts env sk fname no_inc (firstn k g') s0 im0 ic0 = (s', SOk (im', ic')) /\
+           apply_stmts env sk fname no_inc [st] s' im' ic' = (s', SErr e) /\
+           t_imports s' = t_imports s ++ imports_of env (firstn i gs) ++ flat_map (stmt_imports env) (firstn k g)))).
+
+(* an error never locks/unlocks, never touches constants; the registry only grows by the registrations of the modules
+   imported before the failure, and the imports recorded are exactly those of the statements applied before it
+   (no fuel side condition needed) *)
 Theorem C16_error_leaves_flags_gen : forall fuel env sk fname o pending ts s im ic s' e gs pe,
   parse_groups fuel o pending ts = (gs, pe) -> no_includes gs ->
   parse_tokens fuel env sk fname o pending ts s im ic = (s', SErr e) ->
-  t_imports s' = t_imports s /\ t_locked s' = t_locked s /\ reg_extends env s s' /\ t_consts s' = t_consts s.
+  failed_parse_imports env sk fname gs s im ic s' e /\
+  t_locked s' = t_locked s /\ reg_extends env s s' /\ t_consts s' = t_consts s.
 Proof.
   intros fuel env sk fname o pending ts s im ic s' e gs pe H Hn Hp.
   rewrite (C16_stream_eq_gen _ _ _ _ _ _ _ _ _ _ _ _ H Hn) in Hp.
   destruct (consume env sk fname no_inc gs s im ic) as [s1 r] eqn:Hc.
   destruct (consume_frame_gen _ _ _ _ _ _ _ _ _ _ Hn Hc) as [A1 [A2 [A3 A4]]].
-  assert (Hs : s' = s1).
+  assert (Hs : s' = s1 /\ match r with SErr e1 => e1 = e | SOk _ => True end).
   { destruct r as [[im1 ic1]|e1].
-    - destruct (Nat.eqb (List.length gs) fuel); [inversion Hp; reflexivity|].
+    - split; [|exact I]. destruct (Nat.eqb (List.length gs) fuel); [inversion Hp; reflexivity|].
       destruct pe as [e2|]; [inversion Hp; reflexivity|discriminate].
-    - inversion Hp; reflexivity. }
-  subst s'. auto.
+    - inversion Hp; auto. }
+  destruct Hs as [Hs He]. subst s'. split; [|auto].
+  destruct r as [[im1 ic1]|e1].
+  - left. exists im1, ic1. split; [exact Hc|]. exact (proj2 (consume_noinc_records _ _ _ _ _ _ _ _ _ _ _ Hn Hc)).
+  - subst e1. right.
+    destruct (C16_failed_parse_is_statement_prefix _ _ _ _ _ _ _ _ _ Hn Hc) as [i [g [Hi [s0 [im0 [ic0 [Hpre Hd]]]]]]].
+    exists i, g. split; [exact Hi|]. exists s0, im0, ic0. split; [exact Hpre|].
+    destruct (consume_noinc_records _ _ _ _ _ _ _ _ _ _ _ (no_includes_firstn i gs Hn) Hpre) as [B1 B2].
+    destruct Hd as [[Hr Hs]|[g' [k [st [im' [ic' [Hr [Hk [Ha Hf]]]]]]]]].
+    + left. subst s1. auto.
+    + right. exists g', k, st, im', ic'. repeat (split; [assumption|]).
+      assert (Hg : forallb (fun st => negb (is_include st)) g = true).
+      { unfold no_includes in Hn. rewrite Forall_forall in Hn. apply Hn. eapply nth_error_In; exact Hi. }
+      assert (Hg' : forallb (fun st => negb (is_include st)) g' = true)
+        by (rewrite (resolve_group_noinc _ _ _ _ _ Hr); exact Hg).
+      destruct (apply_stmts_noinc_records _ _ _ _ _ _ _ _ _ _ _ (noinc_firstn k g' Hg') Ha) as [_ C2].
+      rewrite (resolve_group_imports_firstn env _ _ _ _ _ k Hr) in C2. rewrite C2, B2, <- app_assoc. reflexivity.
 Qed.
 
 (* with side-effect-free imports: neither lock, registry nor constants are touched *)
@@ -718,18 +880,21 @@ Theorem C16_error_leaves_flags : forall fuel env sk fname o pending ts s im ic s
   pure_imports env ->
   parse_groups fuel o pending ts = (gs, pe) -> no_includes gs ->
   parse_tokens fuel env sk fname o pending ts s im ic = (s', SErr e) ->
-  t_imports s' = t_imports s /\ t_locked s' = t_locked s /\ t_reg s' = t_reg s /\ t_consts s' = t_consts s.
+  failed_parse_imports env sk fname gs s im ic s' e /\
+  t_locked s' = t_locked s /\ t_reg s' = t_reg s /\ t_consts s' = t_consts s.
 Proof.
   intros fuel env sk fname o pending ts s im ic s' e gs pe Hpure H Hn Hp.
   destruct (C16_error_leaves_flags_gen _ _ _ _ _ _ _ _ _ _ _ _ _ _ H Hn Hp) as [A [B [C D]]].
   repeat split; try assumption. apply (reg_extends_pure env s s' Hpure C).
 Qed.
 
-(* and on success the only other flag that changes is the recorded-imports list, extended by exactly this parse's imports *)
+(* and on success the only other flag that changes is the recorded-imports list, extended by exactly this parse's
+   imports: those the parse returns beyond the ones it was handed *)
 Theorem C16_success_records_imports_gen : forall fuel env sk fname o pending ts s im ic s' im' ic' gs pe,
   parse_groups fuel o pending ts = (gs, pe) -> no_includes gs ->
   parse_tokens fuel env sk fname o pending ts s im ic = (s', SOk (im', ic')) ->
-  t_imports s' = t_imports s ++ im' /\ t_locked s' = t_locked s /\ reg_extends env s s' /\ t_consts s' = t_consts s.
+  (im' = im ++ imports_of env gs /\ t_imports s' = t_imports s ++ imports_of env gs) /\
+  t_locked s' = t_locked s /\ reg_extends env s s' /\ t_consts s' = t_consts s.
 Proof.
   intros fuel env sk fname o pending ts s im ic s' im' ic' gs pe H Hn Hp.
   rewrite (C16_stream_eq_gen _ _ _ _ _ _ _ _ _ _ _ _ H Hn) in Hp.
@@ -738,20 +903,31 @@ Proof.
   destruct r as [[im1 ic1]|e1]; [|discriminate].
   destruct (Nat.eqb (List.length gs) fuel); [discriminate|].
   destruct pe as [e2|]; [discriminate|].
-  inversion Hp; subst s' im' ic'. unfold add_imports. cbn [t_imports t_locked t_consts].
-  rewrite A2, A3, A4. repeat split; try reflexivity.
-  destruct A1 as [cs [F E]]. exists cs. split; [exact F|exact E].
+  inversion Hp; subst s' im' ic'. split; [|auto].
+  exact (consume_noinc_records _ _ _ _ _ _ _ _ _ _ _ Hn Hc).
 Qed.
 
 Theorem C16_success_records_imports : forall fuel env sk fname o pending ts s im ic s' im' ic' gs pe,
   pure_imports env ->
   parse_groups fuel o pending ts = (gs, pe) -> no_includes gs ->
   parse_tokens fuel env sk fname o pending ts s im ic = (s', SOk (im', ic')) ->
-  t_imports s' = t_imports s ++ im' /\ t_locked s' = t_locked s /\ t_reg s' = t_reg s /\ t_consts s' = t_consts s.
+  (im' = im ++ imports_of env gs /\ t_imports s' = t_imports s ++ imports_of env gs) /\
+  t_locked s' = t_locked s /\ t_reg s' = t_reg s /\ t_consts s' = t_consts s.
 Proof.
   intros fuel env sk fname o pending ts s im ic s' im' ic' gs pe Hpure H Hn Hp.
   destruct (C16_success_records_imports_gen _ _ _ _ _ _ _ _ _ _ _ _ _ _ _ H Hn Hp) as [A [B [C D]]].
-  repeat split; try assumption. apply (reg_extends_pure env s s' Hpure C).
+  repeat split; try apply A; try assumption. apply (reg_extends_pure env s s' Hpure C).
+Qed.
+
+(* a parse call starts with no imports of its own: what a successful call has recorded is what it returns *)
+Corollary C16_success_records_returned_imports : forall fuel env sk fname o pending ts s s' im' ic' gs pe,
+  parse_groups fuel o pending ts = (gs, pe) -> no_includes gs ->
+  parse_tokens fuel env sk fname o pending ts s [] [] = (s', SOk (im', ic')) ->
+  t_imports s' = t_imports s ++ im'.
+Proof.
+  intros fuel env sk fname o pending ts s s' im' ic' gs pe H Hn Hp.
+  destruct (C16_success_records_imports_gen _ _ _ _ _ _ _ _ _ _ _ _ _ _ _ H Hn Hp) as [[A B] _].
+  cbn [app] in A. subst im'. exact B.
 Qed.
 
 (* the entry point parse_config (fuel 60) *)
@@ -765,7 +941,7 @@ Corollary C16_parse_config : forall env sk fname g s ts gs pe,
    | SOk (im', ic') =>
        match pe with
        | Some e => (s1, SErr (perr_to_serr fname e))
-       | None => (add_imports im' s1, SOk (im', ic'))
+       | None => (s1, SOk (im', ic'))
        end
    end).
 Proof.
@@ -791,4 +967,7 @@ Print Assumptions C16_error_leaves_flags_gen.
 Print Assumptions C16_error_leaves_flags.
 Print Assumptions C16_success_records_imports_gen.
 Print Assumptions C16_success_records_imports.
+Print Assumptions C16_success_records_returned_imports.
+Print Assumptions apply_stmts_noinc_records.
+Print Assumptions consume_noinc_records.
 Print Assumptions C16_parse_config.
